@@ -20,11 +20,19 @@ use vcore::{Fnv, Src};
 
 type RunResult = Result<OwnedSpendBundleConditions, ValidationErr>;
 
+thread_local! {
+    /// the aggregate signature handed to BOTH paths in the current case (set by
+    /// `flag_choice`): the identity, except in the cases that validate signatures
+    static CASE_SIG: std::cell::RefCell<Signature> = std::cell::RefCell::new(Signature::default());
+}
+
 fn run_legacy(program: &[u8], refs: &[Vec<u8>], max_cost: u64, flags: ConsensusFlags) -> RunResult {
-    run_block_generator(program, refs, max_cost, flags, &Signature::default(), None, &TEST_CONSTANTS).map(|(a, c)| proglevel::owned(&a, c))
+    let sig = CASE_SIG.with(|s| s.borrow().clone());
+    run_block_generator(program, refs, max_cost, flags, &sig, None, &TEST_CONSTANTS).map(|(a, c)| proglevel::owned(&a, c))
 }
 fn run_native(program: &[u8], refs: &[Vec<u8>], max_cost: u64, flags: ConsensusFlags) -> RunResult {
-    run_block_generator2(program, refs, max_cost, flags, &Signature::default(), None, &TEST_CONSTANTS).map(|(a, c)| proglevel::owned(&a, c))
+    let sig = CASE_SIG.with(|s| s.borrow().clone());
+    run_block_generator2(program, refs, max_cost, flags, &sig, None, &TEST_CONSTANTS).map(|(a, c)| proglevel::owned(&a, c))
 }
 
 /// errors of the legacy path that are a permitted asymmetry: it exhausted cost
@@ -133,6 +141,22 @@ fn flag_choice(s: &mut Src<'_>) -> ConsensusFlags {
             }
         }
     }
+    // one case in 32 validates the aggregate signature: both paths get the same
+    // signature argument — the identity (right for a block without AGG_SIG
+    // conditions), the G2 generator, or a real signature by a pool key (both wrong
+    // for almost every block) — and have to agree on the verdict as for any other
+    // argument
+    let sig = if s.chance(8) {
+        f.remove(ConsensusFlags::DONT_VALIDATE_SIGNATURE);
+        match s.below(3) {
+            0 => Signature::default(),
+            1 => Signature::generator(),
+            _ => chia_bls::sign(&condgen::key_pool().sks[0], b"c07"),
+        }
+    } else {
+        Signature::default()
+    };
+    CASE_SIG.with(|c| *c.borrow_mut() = sig);
     f
 }
 
@@ -670,7 +694,7 @@ pub fn property() -> Property {
             SubCheck {
                 name: "structured-generators",
                 about: "structured generators with output shape mutations, several program forms, flag sets and cost limits",
-                source: Source::Random { len: 1536, quick: 60_000, thorough: 1_500_000 },
+                source: Source::Random { len: 1536, quick: 400_000, thorough: 4_000_000 },
                 run: case_structured,
                 inflight: true,
                 min_nontrivial: 8_000,
@@ -691,7 +715,7 @@ pub fn property() -> Property {
             SubCheck {
                 name: "mutated-bytes",
                 about: "byte-level mutations of serialized generators",
-                source: Source::Random { len: 1536, quick: 40_000, thorough: 1_000_000 },
+                source: Source::Random { len: 1536, quick: 200_000, thorough: 2_000_000 },
                 run: case_bytes,
                 inflight: true,
                 min_nontrivial: 300,
